@@ -158,7 +158,7 @@ def run_case(kind, p):
         for j in np.flatnonzero(np.any(np.asarray(a[0]) != np.asarray(b[0]), axis=1)):
             m_ = refimpl.ref_maps(frame.astype(np.float64), pattern, pk[j:j + 1], "full")[0]
             rel = (np.asarray(b[0][j]) - pk[j] + c).astype(int)
-            if np.all(rel >= 0) and np.all(rel < 2 * c) and m_[rel[0], rel[1]] >= m_.max() - 2e-4 * max(1.0, abs(m_.max())):
+            if np.all(rel >= 0) and np.all(rel < 2 * c) and np.ptp(m_) > 0 and m_[rel[0], rel[1]] >= m_.max() - 2e-4 * max(1.0, abs(m_.max())):
                 keep[j] = False
             else:
                 msgs.append(f"full, cyclic shift {t.tolist()}{ustag}: centres differ {a[0][j].tolist()} vs {b[0][j].tolist()}")
@@ -212,7 +212,7 @@ def run_case(kind, p):
         for j in np.flatnonzero(clear & np.any(np.asarray(a[0]) != np.asarray(b[0]), axis=1)):
             m_ = refimpl.ref_maps(frame.astype(np.float64), pattern, peaks[j:j + 1], nm)[0]
             rel = (np.asarray(b[0][j]) - peaks[j] + c).astype(int)
-            if np.all(rel >= 0) and np.all(rel < 2 * c) and m_[rel[0], rel[1]] >= m_.max() - 2e-4 * max(1.0, abs(m_.max())):
+            if np.all(rel >= 0) and np.all(rel < 2 * c) and np.ptp(m_) > 0 and m_[rel[0], rel[1]] >= m_.max() - 2e-4 * max(1.0, abs(m_.max())):
                 clear[j] = False
         if clear.any():
             msgs += same(tuple(np.asarray(x)[clear] for x in a), tuple(np.asarray(x)[clear] for x in b),
